@@ -471,7 +471,7 @@ Proof.
   unfold get_as_struct_or_slice. cbv zeta. intros H.
   assert (G : forall r,
     match rv_v r with
-    | VStruct _ | VDec _ => Some (rv_v r, true)
+    | VStruct _ | VDec _ | VMap _ _ _ _ => Some (rv_v r, true)
     | VSlice t _ xs | VArray t xs =>
       match xs with [] => Some (VSlice EAny false [], false) | _ => Some (VSlice EAny false xs, false) end
     | _ => None
